@@ -97,6 +97,8 @@ type loopInfo struct {
 	hdrState *State
 	phiVals  map[*ssa.Phi]Val
 	variant0 string
+	entryVals  map[*ssa.Phi]Val // values of the header phis when the loop is entered
+	entryState *State
 	envNames map[string]TV
 }
 
@@ -499,6 +501,8 @@ func (fr *frame) enterBlock(b *ssa.BasicBlock, edges []edge) *State {
 		fr.vals[phi] = v
 		fr.noteName(phi)
 	}
+	li.entryVals = phiInit
+	li.entryState = st.clone()
 	envInit := fr.loopEnv(li, st)
 	for k, inv := range lc.Invariants {
 		t := fx.evalBool(inv.E, envInit)
@@ -628,6 +632,8 @@ func (fr *frame) loopEnv(li *loopInfo, st *State) *Env {
 	env := fr.fx.baseEnv(st)
 	env.fr = fr
 	env.at = li.header
+	env.entryVals = li.entryVals
+	env.entryState = li.entryState
 	return env
 }
 
@@ -1109,6 +1115,8 @@ func (fr *frame) addEdge(from, to *ssa.BasicBlock, st *State, cond string, in ma
 			v := fx.evalInt(lc.Decreases.E, env)
 			s.oblig("variant", fmt.Sprintf("L%d", li.ordinal), fr.safetyTags(), cond,
 				and(app("<=", "0", li.variant0), app("<", v, li.variant0)), pos, lc.Decreases.Src)
+		} else if lc.NoVariant != "" {
+			s.Assumed = appendUnique(s.Assumed, fmt.Sprintf("%s: termination of loop %d is assumed, not proved (%s)", fr.c.Func, li.ordinal, lc.NoVariant))
 		} else {
 			s.oblig("variant", fmt.Sprintf("L%d", li.ordinal), fr.safetyTags(), cond, "false", pos, "loop has no decreases clause")
 		}
@@ -1155,6 +1163,7 @@ func (fr *frame) loopContract(li *loopInfo) *LoopContract {
 	if m.Decreases == nil {
 		m.Decreases = def.Decreases
 	}
+	m.NoVariant = own.NoVariant
 	return m
 }
 
